@@ -406,7 +406,7 @@ Section Loop.
     exists s1 o1 coins1,
       one_batch H ed_sign s (firstn n queue) now coins = Ok (s1, o1, coins1)
       /\ SInv H ed_pk ed_sign cfg lt oi oc s1
-      /\ so_sent o1 = spec_batch_sent H ed_pk ed_sign (ltk_srv_value H ed_pk lt) lt oi oc now (firstn n queue).
+      /\ so_sent o1 = spec_batch_sent_f H ed_pk ed_sign (send_fails cfg) (ltk_srv_value H ed_pk lt) lt oi oc now (firstn n queue).
   Proof.
     intros cfg lt oi oc s n queue now coins HS Hf Hn.
     assert (Hlen : (N.of_nat (length (firstn n queue)) <= 4294967296)%N).
@@ -445,7 +445,7 @@ Section Loop.
       SInv H ed_pk ed_sign cfg lt oi oc s'
       /\ Forall (fun o => exists ds now,
                    (length ds <= batch_size cfg)%nat
-                   /\ so_sent o = spec_batch_sent H ed_pk ed_sign (ltk_srv_value H ed_pk lt) lt oi oc now ds) outs.
+                   /\ so_sent o = spec_batch_sent_f H ed_pk ed_sign (send_fails cfg) (ltk_srv_value H ed_pk lt) lt oi oc now ds) outs.
   Proof.
     intros cfg lt oi oc arrivals clk Hf Hn1 Hn255.
     induction fuel as [|f IH]; intros s queue k coins s' outs HS Hd; [discriminate|].
@@ -455,7 +455,7 @@ Section Loop.
       as [s1 [o1 [coins1 [Hob [HS1 Hsent]]]]].
     rewrite Hob in Hd. cbn [obind] in Hd.
     assert (Ho1 : exists ds now, (length ds <= batch_size cfg)%nat
-                   /\ so_sent o1 = spec_batch_sent H ed_pk ed_sign (ltk_srv_value H ed_pk lt) lt oi oc now ds).
+                   /\ so_sent o1 = spec_batch_sent_f H ed_pk ed_sign (send_fails cfg) (ltk_srv_value H ed_pk lt) lt oi oc now ds).
     { exists (firstn (batch_size cfg) queue), (clk k). split; [apply firstn_le_length|exact Hsent]. }
     destruct (length queue <? batch_size cfg)%nat.
     - injection Hd as Hs Ho. subst s' outs. split; [exact HS1|]. constructor; [exact Ho1|constructor].
@@ -556,7 +556,7 @@ Proof.
     2:{ apply nth_error_None in En. lia. }
     pose proof (pf_Forall2_nth _ ws oks (d_worker e) s ([], []) Hinv En) as HS.
     cbn beta in HS.
-    destruct (drain_spec H ed_pk ed_sign classify_wellformed HL HPk HSig cfg lt
+    destruct (drain_spec_f H ed_pk ed_sign classify_wellformed HL HPk HSig cfg lt
                 (fst (nth (d_worker e) oks ([], []))) (snd (nth (d_worker e) oks ([], [])))
                 s (d_queue e) (d_clk e) (d_coins e) HS Hf Hn1 Hn255) as [s' [lg [Hpe HS']]].
     rewrite Hpe. cbn [obind].
